@@ -211,6 +211,27 @@ func runSign(d *big.Int, digest []byte, sc mc.Script, oi int) string {
 			return fmt.Sprintf("toggling SelfVerify changed the output (err=%v)", e4)
 		}
 	}
+	// history on the one key object: the caller reuses its digest buffer for a second message (h.Sum(buf[:0])),
+	// signs again, then signs the first message once more - every output is a function of (key, digest, entropy) only
+	for i := range dg {
+		dg[i] ^= 0xa5
+	}
+	d2 := append([]byte{}, dg...)
+	r2, s2, v2, e5 := sk.SignRaw(mkReader(sc), dg)
+	if e5 != nil {
+		return "second SignRaw on the same key (digest buffer reused for another message) failed: " + e5.Error()
+	}
+	if !ref.ECDSAVerify(ref.BaseMul(d), d2, lib.SCVal(r2), lib.SCVal(s2)) || lib.SCVal(s2).Cmp(ref.HalfN) > 0 {
+		return "second signature on the same key object, made after the caller reused its digest buffer for another message, is not a valid low-s signature of that message"
+	}
+	if rq, err := ref.ECDSARecover(d2, lib.SCVal(r2), lib.SCVal(s2), int(v2)); err != nil || !rq.Equal(ref.BaseMul(d)) {
+		return "second signature on the same key object: emitted recovery id does not recover the signer"
+	}
+	copy(dg, digest)
+	r3, s3, v3, e6 := sk.SignRaw(mkReader(sc), dg)
+	if e6 != nil || r3.Equal(rr) != 1 || s3.Equal(sr) != 1 || v3 != vr {
+		return fmt.Sprintf("signing the first message again on the same key object with the same entropy gives a different result (err=%v): the output depends on the key object's history", e6)
+	}
 	if !bytes.Equal(sk.Bytes(), ref.B32(d)) {
 		return "private key changed"
 	}
